@@ -118,6 +118,8 @@ def render(spec, allspecs=None):
     else:
         lines.append('%s DEFINITIONS ::= BEGIN' % name)
         lines.append('IMPORTS')
+        if spec.get('dupobj'):
+            smi_syms = smi_syms + ['OBJECT-TYPE', 'Integer32']                # the same symbol imported twice
         lines.append('    %s FROM SNMPv2-SMI' % ', '.join(smi_syms))
         if spec.get('compliance'):
             lines.append('    MODULE-COMPLIANCE, OBJECT-GROUP FROM SNMPv2-CONF')
@@ -217,7 +219,10 @@ def render(spec, allspecs=None):
         grp = '%sGroup' % sym(name)
         if objnames:
             lines.append('%s OBJECT-GROUP' % grp)
-            lines.append('    OBJECTS { %s }' % ', '.join(objnames))
+            listed = list(objnames)
+            if spec.get('dupobj'):
+                listed = listed + listed[:1] + listed[-1:]     # sloppy but accepted: objects named more than once
+            lines.append('    OBJECTS { %s }' % ', '.join(listed))
             lines.append('    STATUS current')
             lines.append('    DESCRIPTION "group"')
             lines.append('    ::= { %s 9998 }' % me)
